@@ -1,12 +1,306 @@
-// Package c14: correspondence harness of C14 (stub: replaced when C14 is built).
+// Package c14: the generated set/list helpers (Contains, Unique, Set, Union, Intersect, Filter,
+// TakeWhile, All, Any) vs the models of coq/theories/Sets and the textbook specifications.
+//
+// The catalogue type T is the ELEMENT type; the derived functions work on []T (and
+// map[T]struct{} where T may be a map key).  Lists are built from T's value pool: nil, empty,
+// singletons, duplicates, Equal-but-not-identical elements (clones at fresh addresses), nil
+// elements (pool), spare capacity, hash collisions ("Aa"/"BB"), +0/-0 (pool), random lists.
 package c14
 
 import (
+	_ "embed"
 	"fmt"
+	"os"
+	"path/filepath"
+	"sort"
+	"strings"
+	"sync"
 
+	"verifharness/internal/ga"
 	"verifharness/internal/hx"
 )
 
+//go:embed drv.go.txt
+var drvSource string
+
+// goComparable: may T be a map key (Go's comparable: no slice, map inside, by value)?
+func goComparable(t *ga.Type) bool {
+	switch t.K {
+	case ga.KBasic, ga.KPtr, ga.KRef:
+		return true
+	case ga.KNamed, ga.KArray:
+		return goComparable(t.Elem)
+	case ga.KStruct:
+		for _, f := range t.Fields {
+			if !goComparable(f.T) {
+				return false
+			}
+		}
+		return true
+	}
+	return false
+}
+
+// unnamedStructKey: does t contain a map whose key type mentions an unnamed struct?  derived Hash
+// sorts map keys with derived Compare, which refuses unnamed structs - unless a named struct type
+// with the same underlying type happens to be in the package, whose Compare goderive then reuses
+// by assignability (C08's subject).  The shared model of Hash says "unsupported" for them, so
+// they are left out here.
+func unnamedStructKey(t *ga.Type) bool {
+	var inKey func(k *ga.Type) bool
+	inKey = func(k *ga.Type) bool {
+		switch k.K {
+		case ga.KStruct:
+			return true
+		case ga.KArray:
+			return inKey(k.Elem)
+		}
+		return false
+	}
+	switch t.K {
+	case ga.KNamed, ga.KPtr, ga.KSlice, ga.KArray:
+		return t.Elem != nil && unnamedStructKey(t.Elem)
+	case ga.KMap:
+		return inKey(t.Key) || unnamedStructKey(t.Key) || unnamedStructKey(t.Elem)
+	case ga.KStruct:
+		for _, f := range t.Fields {
+			if unnamedStructKey(f.T) {
+				return true
+			}
+		}
+	}
+	return false
+}
+
+var (
+	mu   sync.Mutex
+	byGo = map[string]*ga.Type{}
+)
+
+func lookup(tgo string) *ga.Type {
+	mu.Lock()
+	defer mu.Unlock()
+	return byGo[tgo]
+}
+
+func wrap(op, src string) ga.Call {
+	return ga.Call{Op: op,
+		Wrap: func(idx int, tgo string) string {
+			return strings.NewReplacer("%T", tgo, "%d", fmt.Sprint(idx)).Replace(src)
+		},
+		WrapFn: func(idx int) string { return fmt.Sprintf("%s_%d", op, idx) }}
+}
+
+// wrappers that exist only when T can be a map key; otherwise a stub keeps reg.go compiling
+func wrapKey(op, src string) ga.Call {
+	return ga.Call{Op: op,
+		Wrap: func(idx int, tgo string) string {
+			if t := lookup(tgo); t != nil && goComparable(t) {
+				return strings.NewReplacer("%T", tgo, "%d", fmt.Sprint(idx)).Replace(src)
+			}
+			return fmt.Sprintf("func %s_%d() {}\n", op, idx)
+		},
+		WrapFn: func(idx int) string { return fmt.Sprintf("%s_%d", op, idx) }}
+}
+
+var calls = []ga.Call{
+	ga.CallEq,
+	wrap("contains", "func contains_%d(l []%T, x %T) bool { return deriveContains_%d(l, x) }\n"),
+	wrap("unique", "func unique_%d(l []%T) []%T { return deriveUnique_%d(l) }\n"),
+	wrap("union", "func union_%d(a, b []%T) []%T { return deriveUnion_%d(a, b) }\n"),
+	wrap("intersect", "func intersect_%d(a, b []%T) []%T { return deriveIntersect_%d(a, b) }\n"),
+	wrap("filter", "func filter_%d(p func(%T) bool, l []%T) []%T { return deriveFilter_%d(p, l) }\n"),
+	wrap("takewhile", "func takewhile_%d(p func(%T) bool, l []%T) []%T { return deriveTakeWhile_%d(p, l) }\n"),
+	wrap("all", "func all_%d(p func(%T) bool, l []%T) bool { return deriveAll_%d(p, l) }\n"),
+	wrap("any", "func any_%d(p func(%T) bool, l []%T) bool { return deriveAny_%d(p, l) }\n"),
+	wrapKey("set", "func set_%d(l []%T) map[%T]struct{} { return deriveSet_%d(l) }\n"),
+	wrapKey("unionm", "func unionm_%d(a, b map[%T]struct{}) map[%T]struct{} { return deriveUnionM_%d(a, b) }\n"),
+	wrapKey("intersectm", "func intersectm_%d(a, b map[%T]struct{}) map[%T]struct{} { return deriveIntersectM_%d(a, b) }\n"),
+}
+
+// ---------- lists ----------
+
+type lister struct {
+	next int
+	r    *hx.Rand
+}
+
+func (l *lister) fresh() int { l.next++; return l.next }
+func (l *lister) cl(v *ga.Val) *ga.Val { return v.Clone(l.fresh) }
+
+func (l *lister) mk(spare []*ga.Val, es ...*ga.Val) *ga.Val {
+	s := &ga.Val{K: "sl", Loc: l.fresh()}
+	for _, e := range es {
+		s.Elems = append(s.Elems, l.cl(e))
+	}
+	for _, e := range spare {
+		s.Spare = append(s.Spare, l.cl(e))
+	}
+	return s
+}
+
+// collide returns two copies of v whose string leaves (outside map keys) are "Aa" and "BB":
+// different values with the same derived hash (31*'A'+'a' == 31*'B'+'B').
+func collide(v *ga.Val) (a, b *ga.Val, ok bool) {
+	found := false
+	var rec func(x *ga.Val, s string) *ga.Val
+	rec = func(x *ga.Val, s string) *ga.Val {
+		c := *x
+		if x.K == "s" {
+			found = true
+			c.Str = []byte(s)
+			return &c
+		}
+		c.Elems = nil
+		for _, e := range x.Elems {
+			c.Elems = append(c.Elems, rec(e, s))
+		}
+		c.Spare = nil
+		for _, e := range x.Spare {
+			c.Spare = append(c.Spare, rec(e, s))
+		}
+		c.KVs = nil
+		for _, kv := range x.KVs {
+			c.KVs = append(c.KVs, [2]*ga.Val{kv[0], rec(kv[1], s)})
+		}
+		return &c
+	}
+	a = rec(v, "Aa")
+	b = rec(v, "BB")
+	return a, b, found
+}
+
+func (l *lister) lists(vals []*ga.Val, nrand int) []*ga.Val {
+	v0 := vals[0]
+	v1 := vals[len(vals)-1]
+	v2 := vals[len(vals)/2]
+	if len(vals) > 1 {
+		v1 = vals[1]
+	}
+	out := []*ga.Val{
+		{K: "nils"},
+		l.mk(nil),
+		l.mk(nil, v0),
+		l.mk(nil, v1, v0, v1, v0, v1),          // duplicates (each element cloned: Equal, not identical)
+		l.mk(nil, v0, v1, v2),
+		l.mk([]*ga.Val{v2, v2}, v1, v0, v0),     // spare capacity of 2
+		l.mk([]*ga.Val{v1}, v2, v1, v2),         // spare capacity of 1
+		l.mk([]*ga.Val{v0, v0, v0}),             // empty with capacity
+	}
+	// the same element value (same addresses inside) twice, and a clone of it
+	same := &ga.Val{K: "sl", Loc: l.fresh()}
+	e := l.cl(v1)
+	same.Elems = []*ga.Val{e, l.cl(v1), e}
+	out = append(out, same)
+	for _, v := range vals {
+		if a, b, ok := collide(v); ok {
+			out = append(out, l.mk(nil, a, b, a), l.mk([]*ga.Val{v0}, b, v0, a, b))
+			break
+		}
+	}
+	for i := 0; i < nrand; i++ {
+		n := l.r.Intn(7)
+		var es []*ga.Val
+		for j := 0; j < n; j++ {
+			es = append(es, hx.Pick(l.r, vals))
+		}
+		var sp []*ga.Val
+		for j := l.r.Intn(3); j > 0; j-- {
+			sp = append(sp, hx.Pick(l.r, vals))
+		}
+		out = append(out, l.mk(sp, es...))
+	}
+	return out
+}
+
+// loadCorpus reads corpus/C14/*.txt: "<Go element type>|<case line with %d for the type index>".
+func loadCorpus(dir string) map[string][]string {
+	out := map[string][]string{}
+	files, _ := filepath.Glob(filepath.Join(dir, "*.txt"))
+	sort.Strings(files)
+	for _, f := range files {
+		b, err := os.ReadFile(f)
+		if err != nil {
+			continue
+		}
+		for _, l := range strings.Split(string(b), "\n") {
+			l = strings.TrimSpace(l)
+			if l == "" || l[0] == '#' {
+				continue
+			}
+			if i := strings.IndexByte(l, '|'); i > 0 {
+				out[l[:i]] = append(out[l[:i]], l[i+1:])
+			}
+		}
+	}
+	return out
+}
+
 func Run(cfg hx.Config) (*hx.Meta, error) {
-	return nil, fmt.Errorf("C14: harness not built yet")
+	corpus := loadCorpus(cfg.Corpus)
+	nrand, npairs := 3, 14
+	if cfg.Tier == "thorough" {
+		nrand, npairs = 10, 50
+	}
+	kinds := []string{"ptrue", "pfalse", "peq", "ppar"}
+	vr := &ga.ValueRun{
+		Prop: "C14", Calls: calls, SupObs: "sup-c14", PoolQuick: 8, PoolThorough: 14,
+		Extra: map[string]string{"c14_drv.go": drvSource},
+		Filter: func(t *ga.Type) bool {
+			if unnamedStructKey(t) {
+				return false
+			}
+			mu.Lock()
+			byGo[t.Go(0)] = t
+			mu.Unlock()
+			return true
+		},
+		Cases: func(idx int, t *ga.Type, vals []*ga.Val, r *hx.Rand, out *strings.Builder) {
+			for _, c := range corpus[t.Go(0)] {
+				out.WriteString(strings.Replace(c, "%d", fmt.Sprint(idx), 1) + "\n")
+			}
+			l := &lister{next: 1000000, r: r}
+			ls := l.lists(vals, nrand)
+			key := goComparable(t)
+			items := []*ga.Val{vals[0], vals[len(vals)-1]}
+			if len(vals) > 2 {
+				items = append(items, vals[1])
+			}
+			for _, lst := range ls {
+				for _, x := range items {
+					fmt.Fprintf(out, "contains %d %s %s\n", idx, lst.Sexp(), l.cl(x).Sexp())
+				}
+				if len(lst.Elems) > 0 {
+					// an element of the list itself, at other addresses
+					fmt.Fprintf(out, "contains %d %s %s\n", idx, lst.Sexp(), l.cl(lst.Elems[len(lst.Elems)-1]).Sexp())
+				}
+				fmt.Fprintf(out, "unique %d %s\n", idx, lst.Sexp())
+				if key {
+					fmt.Fprintf(out, "set %d %s\n", idx, lst.Sexp())
+				}
+				for ki, k := range kinds {
+					c := items[(ki+len(lst.Elems))%len(items)]
+					if k == "peq" && len(lst.Elems) > 0 {
+						c = lst.Elems[l.r.Intn(len(lst.Elems))]
+					}
+					for _, op := range []string{"filter", "takewhile", "all", "any"} {
+						fmt.Fprintf(out, "%s %d %s %s %s\n", op, idx, k, l.cl(c).Sexp(), lst.Sexp())
+					}
+				}
+			}
+			for k := 0; k < npairs; k++ {
+				a, b := ls[k%len(ls)], hx.Pick(r, ls)
+				if k >= len(ls) {
+					a = hx.Pick(r, ls)
+				}
+				fmt.Fprintf(out, "union %d %s %s\n", idx, a.Sexp(), b.Sexp())
+				fmt.Fprintf(out, "intersect %d %s %s\n", idx, a.Sexp(), b.Sexp())
+				if key {
+					fmt.Fprintf(out, "unionm %d %s %s\n", idx, a.Sexp(), b.Sexp())
+					fmt.Fprintf(out, "intersectm %d %s %s\n", idx, a.Sexp(), b.Sexp())
+				}
+			}
+		},
+	}
+	return vr.Run(cfg)
 }
